@@ -367,6 +367,21 @@ def render_java(facts):
     return "\n".join(out) + "\n"
 
 
+def scrape_emit():
+    """EmitFacts.v: shape of the C++ base clause (C11)."""
+    facts, problems = {}, []
+    t = read("idlc_codegen_cpp/src/interface/mod.rs")
+    facts["cpp_base_sep_is_space"] = bool(re.search(r'base_iface\.push_str\(&format!\("I\{\} ", ', t)) and bool(re.search(r'format!\(": public \{base_iface\}"\)', t))
+    return facts, problems
+
+
+def render_emit(facts):
+    out = ["(* GENERATED by lib/translate.py: how the C++ emitter joins the ancestors of an interface. *)", "Require Import Base.", ""]
+    for k in sorted(facts):
+        out.append("Definition %s : bool := %s." % (k, "true" if facts[k] else "false"))
+    return "\n".join(out) + "\n"
+
+
 def render_own(facts):
     out = ["(* GENERATED by lib/translate.py: ownership idioms of the object visitors (C, C++, Rust emitters) and of ProxyBase::consume. *)",
            "Require Import Base.", ""]
@@ -430,6 +445,11 @@ def main(outdir, probe=None):
     F.items["java"] = jf
     if not jproblems:
         write_if_changed(os.path.join(outdir, "JavaFacts.v"), render_java(jf))
+    ef, eproblems = scrape_emit()
+    F.problems += eproblems
+    F.items["emit"] = ef
+    if not eproblems:
+        write_if_changed(os.path.join(outdir, "EmitFacts.v"), render_emit(ef))
     cf, cproblems = scrape_conc()
     F.problems += cproblems
     F.items["conc"] = cf
